@@ -134,8 +134,24 @@ func (l *Lowerer) addFact(c *Term) {
 	case OUlt:
 		l.facts[[2]uint32{c.A[0].ID, c.A[1].ID}] = true
 		l.bound(c.A[0], c.A[1], true)
+	case OSlt:
+		// x <s 0: sign bit set
+		if a, b := c.A[0], c.A[1]; a.Op == OVar && a.Sort == SBV && b.IsConst() && b.ConstBig().Sign() == 0 {
+			lo := pow2(uint(a.W) - 1)
+			if old, ok := l.varLo[a]; !ok || lo.Cmp(old) > 0 {
+				l.varLo[a] = lo
+			}
+		}
 	case OBNot:
 		x := c.A[0]
+		if x.Op == OSlt {
+			if a, b := x.A[0], x.A[1]; a.Op == OVar && a.Sort == SBV && b.IsConst() && b.ConstBig().Sign() == 0 {
+				h := new(big.Int).Sub(pow2(uint(a.W)-1), bigOne)
+				if old, ok := l.varHi[a]; !ok || h.Cmp(old) < 0 {
+					l.varHi[a] = h
+				}
+			}
+		}
 		if x.Op == OUlt { // !(a<b) => b<=a
 			l.facts[[2]uint32{x.A[1].ID, x.A[0].ID}] = true
 			l.bound(x.A[1], x.A[0], false)
@@ -509,13 +525,16 @@ func (l *Lowerer) signedOf(t *Term) string {
 	if l.be == BackendBV {
 		panic("signedOf in BV back end")
 	}
-	_, hi := l.iv(t)
+	lo, hi := l.iv(t)
 	half := pow2(uint(t.W) - 1)
 	if t.IsConst() {
 		return sInt(t.SignedBig())
 	}
 	if hi.Cmp(half) < 0 {
 		return e
+	}
+	if lo.Cmp(half) >= 0 {
+		return fmt.Sprintf("(- %s %s)", e, pow2(uint(t.W)))
 	}
 	return fmt.Sprintf("(ite (>= %s %s) (- %s %s) %s)", e, half, e, pow2(uint(t.W)), e)
 }
